@@ -31,6 +31,8 @@ import . "github.com/pbenner/threadpool"
 type ScalarIid struct {
   Estimator ScalarEstimator
   n         int
+  // dimension of every observation in the data set
+  dims    []int
 }
 
 /* -------------------------------------------------------------------------- */
@@ -48,6 +50,7 @@ func (obj *ScalarIid) Clone() *ScalarIid {
   r := ScalarIid{}
   r.Estimator = obj.Estimator.CloneScalarEstimator()
   r.n         = obj.n
+  r.dims      = obj.dims
   return &r
 }
 
@@ -86,6 +89,10 @@ func (obj *ScalarIid) SetData(x []ConstVector, n int) error {
   if obj.n != -1 && obj.n != m {
     return fmt.Errorf("data has invalid dimension (expected dimension `%d' but data has dimension `%d)", obj.n, m)
   }
+  obj.dims = make([]int, len(x))
+  for i := 0; i < len(x); i++ {
+    obj.dims[i] = x[i].Dim()
+  }
   y := NullDenseVector(x[0].ElementType(), m)
   for i, k := 0, 0; i < len(x); i++ {
     for j := 0; j < x[i].Dim(); j++ {
@@ -100,6 +107,17 @@ func (obj *ScalarIid) SetData(x []ConstVector, n int) error {
  * -------------------------------------------------------------------------- */
 
 func (obj *ScalarIid) Estimate(gamma ConstVector, p ThreadPool) error {
+  if gamma != nil && gamma.Dim() == len(obj.dims) {
+    // there is one weight for every observation, which applies to all of its
+    // entries
+    g := []float64{}
+    for i, n := range obj.dims {
+      for j := 0; j < n; j++ {
+        g = append(g, gamma.ConstAt(i).GetFloat64())
+      }
+    }
+    gamma = NewDenseFloat64Vector(g)
+  }
   return obj.Estimator.Estimate(gamma, p)
 }
 
